@@ -275,6 +275,11 @@ def file_mod(rel):
     return mods
 
 
+ORCHESTRATORS = {"link_cores", "link_cores_with_entry"}
+# second reading (core.Run.try_rule): an orchestrator with the phases that were carved out of it into private helpers put back in place
+INLINE_ORCHESTRATORS = False
+
+
 class Model:
     def __init__(self, facts):
         self.facts = facts
@@ -362,7 +367,12 @@ class Model:
         if not c and rel:
             c = self.find_fns(name, None, impl)  # moved to another file
         if len(c) == 1:
-            return self._behind_wrapper(c[0])
+            f = self._behind_wrapper(c[0])
+            # an orchestrator's obligations are about the whole flow it performs (validate, order, merge, lower): in the second reading
+            # it is read with the phases that were carved out of it put back in place (neutral patch N33-f splits link_cores into six)
+            if INLINE_ORCHESTRATORS and f.name in ORCHESTRATORS and f.body is not None:
+                return self.inlined_fn(f)
+            return f
         if not c:
             raise AnalysisIncomplete(f"anchor function `{name}`{' in ' + rel if rel else ''} not found ({role or 'no role note'})")
         if rel:
